@@ -2,11 +2,14 @@
 
 extract    : norm_N3D / norm_SN3D / norm_FuMa squared (exact rationals recovered from the float64 values), the FuMa
              conversion factors and to_acn / from_acn on 0..35 -> lean/Earverif/Gen/C11_Tables.lean
-correspond : (a) hoa.norm_* on every rotation + random permutations of channel lists vs the model's element-wise norms,
+correspond : (a) hoa.norm_* on every rotation + random permutations of channel lists (and lists with |degree| > order) vs the
+                 model's element-wise norms, (a') hoa.sph_harm vs the model's closed-form `sphHarm`,
              (b) HOADecoderDesign.design vs the Lean `design` (Float) fed the REAL G_virt / Y_virt captured from the
-                 call, (c) HOARenderer routing vs the Lean `route`
+                 call and vs the Lean `designPack` fed G_virt and the point directions only,
+             (c) HOARenderer routing vs the Lean `route`, rendered frames vs `renderFrame` on ALL ten layouts
 search     : the property evaluated on the real code alone (permutation, N3D/SN3D/FuMa plane-wave signals, finiteness,
-             LFE rows, linearity in gains, unit mean power)
+             LFE rows, linearity in gains, unit mean power; rendered audio through the real HOARenderer on all ten
+             layouts: LFE outputs zero, outputs = decoder @ input, channel-order and normalisation invariance)
 """
 import copy
 import os
@@ -161,6 +164,34 @@ class LayoutCtx:
             cls_.cache[name] = cls_(name)
         return cls_.cache[name]
 
+    light_cache = {}
+
+    @classmethod
+    def get_light(cls_, name):
+        """A real HOARenderer for the layout whose decoder design uses every 13th point of the t-design (400 virtual
+        loudspeakers instead of 5200; the attributes init_slow would set are set here, everything else - design,
+        InterpretHOAMetadata, FixedMatrix, render - is the real code). Used to render through ALL ten layouts on every run."""
+        if name in cls_.cache:
+            return cls_.cache[name]
+        if name not in cls_.light_cache:
+            from ear.core import bs2051, hoa
+            from ear.core.scenebased.renderer import HOARenderer
+
+            self = cls_.__new__(cls_)
+            self.name = name
+            self.layout = bs2051.get_layout(name)
+            self.renderer = HOARenderer(self.layout)
+            self.dd = self.renderer._decoder_design
+            self.dd._initialised = True
+            self.dd.points = hoa.load_points()[::13]
+            self.dd.G_virt = hoa.allrad_calc_G_virt(self.dd.points, self.dd.psp.handle)
+            self.L = self.dd.G_virt.shape[0]
+            pts = self.dd.points
+            self.az = -np.arctan2(pts[:, 0], pts[:, 1])
+            self.el = np.arctan2(pts[:, 2], np.hypot(pts[:, 0], pts[:, 1]))
+            cls_.light_cache[name] = self
+        return cls_.light_cache[name]
+
     def designer(self, opts=None, subset=None):
         """The real design object with other option values and/or a sub-sampled virtual-loudspeaker set (the real
         `design` method runs unchanged; only the attributes init_slow/`__init__` would have set are replaced)."""
@@ -295,6 +326,7 @@ class C11(Spec):
     theorems = tuple(
         "Earverif.Hoa." + t
         for t in (
+            # abstract layer (G, Y, norm vectors arbitrary; NonDegenerate = no division by zero)
             "design_perm",
             "design_norm_invariant",
             "design_same_signals",
@@ -302,40 +334,82 @@ class C11(Spec):
             "design_mute_zero",
             "design_unit_mean_power",
             "design_unit_mean_power_nmp",
+            "nonDegenerate_of_indep",
+            "froSq_ne_zero_of_indep",
+            "meanPow_ne_zero_of_indep",
+            "NonDegenerate.perm",
+            "NonDegenerate.change_norm",
+            # concrete layer (norm_*, sph_harm inside the model)
+            "designPack_perm",
+            "designPack_same_signals",
+            "nonDegenerate_pack",
+            "degree_gt_order_degenerate",
+            "normBy_pos",
+            "normDefined_iff",
+            "sphHarm_rescale",
+            "sphHarm_fuma",
+            "alegendre_closed",
+            "sphHarm_pair",
+            "unsold_sn3d",
+            "unsold_n3d",
+            "normN3D_eq",
+            "sphHarm_first_order",
+            # renderer
             "no_lfe_feed",
+            "render_lfe_zero",
+            "design_render_lfe_zero",
+            "renderFrame_eq_route",
             "route_nonlfe_rows",
             "route_shape",
+            # norm factors and tables
             "norms_sq",
             "norms_pos",
+            "norms_zero_of_gt",
             "tables_norms_positive",
             "tables_match_model",
+            "tables_normBy_sq",
             "table_fuma_is_sn3d_times_factor",
             "table_acn_inverse",
         )
     )
     trusted_base = (
-        "model Earverif/Model/Hoa.lean is a hand transliteration of hoa.allrad_design, HOADecoderDesign.design and the "
-        "HOARenderer output routing; G_virt (panner on the t-design), Y_virt (N3D spherical harmonics), the per-order "
-        "maxRE table and the per-channel norm factors are parameters of the model (arbitrary reals / non-zero reals)",
-        "sph_harm is linear in its norm argument: K_v = diag(nrm/nN3D)·Y_virt (checked to 1e-12 on every "
-        "correspondence case against the K_v the real design call computed)",
+        "model Earverif/Model/Hoa.lean is a hand transliteration of hoa.norm_N3D/SN3D/FuMa, hoa.sph_harm/Alegendre, "
+        "hoa.allrad_design, HOADecoderDesign.design and the HOARenderer output routing / FixedMatrix.process; G_virt (panner on "
+        "the t-design), the t-design directions and the per-order maxRE table are parameters of the model",
+        "scipy.special.lpmv and scipy.special.factorial are black boxes modelled in closed form (upward Legendre recurrence "
+        "without Condon-Shortley phase; factorial of a negative integer = 0); tied on every run by `sph`/`norm` correspondence "
+        "(1e-12 / 1e-14) and by designPack (model computes Y_virt and the norm vectors itself) vs the real design (1e-9)",
+        "K_v = diag(nrm/nN3D)·Y_virt inside designW (sph_harm is linear in norm: theorem sphHarm_rescale for the model, checked "
+        "to 1e-12 on every correspondence case against the K_v the real design call computed)",
         "rational recovery of the squared norm factors from float64 (Fraction.limit_denominator(10^7), re-checked by "
         "sqrt to 1e-15)",
         "sub-sampled virtual-loudspeaker sets in the correspondence replace the attributes points/G_virt of a copy of "
         "the real HOADecoderDesign; its design method runs unchanged",
     )
     assumptions = (
-        "channel orders are naturals, |degree| <= order; FuMa only for orders <= 3 (the real code raises ValueError above)",
-        "theorems are over the reals: finiteness/NaN is searched, not proved; the non-zero-denominator hypotheses "
-        "(Frobenius norm, mean power, norm factors) are explicit",
+        "channel orders are naturals and |degree| <= order in every theorem about the concrete conventions (norms_pos, "
+        "designPack_*): for |degree| > order the code's norm_N3D/norm_SN3D are 0 (norms_zero_of_gt, corresponded) and the decoder "
+        "is NaN - no validator of the real code rejects such a pack (recorded finding degree-exceeds-order, see notes); FuMa only "
+        "for orders <= 3 (the real code raises ValueError above)",
+        "theorems are over the reals. The hypothesis NonDegenerate lists every denominator of the computation (number of points, "
+        "Frobenius norm, both norm factors, sum of squared maxRE weights when rescaled, mean power when norm_mean_power is on) "
+        "as non-zero; nonDegenerate_of_indep / nonDegenerate_pack derive it from: at least one sample point, linearly "
+        "independent rows of Y_virt, |degree| <= order, and a non-zero entry of G·Yᵀ in a column with non-zero maxRE weight. "
+        "Finiteness in binary64 (overflow, NaN inputs) is searched, not proved",
+        "unit mean power is the mean over the code's P sample directions (the t-design points), not an integral over the sphere",
+        "tables are decided for orders 0..5 (N3D, SN3D), 0..3 (FuMa) and ACN 0..35; the closed-form Legendre / Unsoeld theorems "
+        "cover orders 0..3 (orders 4, 5 of sph_harm are tied by correspondence only)",
         "excluded point: maxRE=True with maxRE_scale='order' on a pack whose maximum order is 0 gives an all-zero "
-        "decoder (0/0 = NaN with norm_mean_power)",
+        "decoder (0/0 = NaN with norm_mean_power) - NonDegenerate.meanPow fails there",
     )
     rule = (
         "a case is one (layout, design options, normalisation, channel list in a given order, gains, object gain/mute, "
-        "virtual point set); channel lists: full / horizontal-only / random partial sets of orders 0..5 (FuMa 0..3), "
-        "rotated/shuffled so that every (order,|degree|) class comes first; non-trivial = at least 2 channels and not "
-        "muted; distinct by all of the above"
+        "virtual point set) - compared twice: Lean `design` fed the captured Y_virt/norm vectors, and Lean `designPack` fed "
+        "only G_virt and the point directions; channel lists: full / horizontal-only / random partial sets of orders 0..5 "
+        "(FuMa 0..3), rotated/shuffled so that every (order,|degree|) class comes first; plus hoa.norm_* on every rotation "
+        "of every list (and on lists with |degree| > order), hoa.sph_harm per (n, m, direction), to_acn/from_acn, routing "
+        "and one rendered frame per routed case, and two packs x 4-6 plane-wave frames rendered through the real HOARenderer "
+        "on each of the ten layouts (400-point virtual loudspeaker set); non-trivial = at least 2 channels and not muted; distinct by all of the above"
     )
 
     # ---------------------------------------------------------------- extract
@@ -433,8 +507,11 @@ class C11(Spec):
 
     def correspond(self, ctx):
         driver = Driver("c11driver", "Earverif.Driver.C11")
-        self._corr_norms(ctx, driver)
+        vals = self._corr_norms(ctx, driver)
+        self._corr_norms_beyond(ctx, driver, vals)
+        self._corr_sph(ctx, driver)
         self._corr_acn(ctx, driver)
+        self._corr_render_all(ctx, driver)
         if ctx.quick:
             for name in self._layouts(ctx):
                 ok, lc = guarded(ctx, "HOARenderer(layout) / init_slow", {"layout": name}, LayoutCtx.get, name)
@@ -444,16 +521,18 @@ class C11(Spec):
             run_parallel(ctx, self._layouts(ctx), "correspond", True)
 
     def _model_norms(self, driver):
-        keys = [(c, n, m) for c in CONVS for n in range(max_order(c) + 1) for m in range(n + 1)]
+        # |m| <= n (inside the property) and |m| = n+1, n+2 (what the code computes there: 0.0 / KeyError)
+        keys = [(c, n, m) for c in CONVS for n in range(max_order(c) + 1) for m in range(n + 3)]
         outs = driver.run(["norm %s %d %d" % k for k in keys])
         sqs = driver.run(["normsq %s %d %d" % k for k in keys])
         vals = {}
         for k, o, s in zip(keys, outs, sqs):
-            vals[k] = (bits_to_floats([o])[0], Fraction(s))
+            vals[k] = None if o == "raise" else (bits_to_floats([o])[0], Fraction(s))
         return vals
 
     def _corr_norms(self, ctx, driver):
         vals = self._model_norms(driver)
+        self._norm_vals = vals
         for conv in CONVS:
             for N in range(max_order(conv) + 1):
                 sets = channel_sets(ctx.rng, N)
@@ -505,6 +584,84 @@ class C11(Spec):
                                     {"got": got.tolist(), "same channels in ACN-rotation order give": ref[p].tolist()},
                                     ["norm-order-dependent", "norm-" + conv],
                                 )
+        return vals
+
+    def _corr_norms_beyond(self, ctx, driver, vals):
+        """|degree| > order: model vs code only (what hoa.norm_* computes there; no predicate is evaluated — the
+        standard has no such channel). scipy's factorial of a negative number is 0, so N3D/SN3D return 0.0; FuMa's
+        table lookup raises KeyError."""
+        from ear.core import hoa
+
+        lists = []
+        for n in range(6):
+            lists += [[(n, n + 1)], [(n, -(n + 2))], [(0, 0), (n, n + 1)], [(n, n + 1), (0, 0), (n, -n)]]
+        lists.append([(0, 0), (1, 1), (1, 2)])
+        for conv in CONVS:
+            for lst in lists:
+                if max(c[0] for c in lst) > max_order(conv):
+                    continue
+                inp = {"norm": conv, "channels": lst}
+                want = [vals.get((conv, c[0], abs(c[1]))) for c in lst]
+                try:
+                    with warnings.catch_warnings(), np.errstate(all="ignore"):
+                        warnings.simplefilter("ignore")
+                        got = np.asarray(real_norm(conv, lst), dtype=float)
+                    err = None
+                except Exception as e:
+                    got, err = None, type(e).__name__
+                ctx.case(("norm-beyond", conv, tuple(lst)), True)
+                ctx.count("norms:|m|>n:%s:%s" % (conv, "raises" if err else "returns"))
+                if any(w is None for w in want):
+                    ok = err == "KeyError"
+                else:
+                    ok = err is None and got.shape == (len(lst),) and close(got, [w[0] for w in want], 1e-14) \
+                        and all(float(w[1]) == 0.0 for c, w in zip(lst, want) if abs(c[1]) > c[0])
+                if ok:
+                    ctx.validated()
+                else:
+                    ctx.disagree("hoa.norm_%s for |degree| > order vs model" % conv, inp,
+                                 ["raise" if w is None else w[0] for w in want], err or got.tolist())
+
+    def _corr_sph(self, ctx, driver):
+        """hoa.sph_harm (scipy lpmv inside) vs the model's closed-form recurrence `sphHarm`, every (n, m) of orders 0..5
+        (FuMa 0..3) in every convention at random and axis/pole directions, called on whole channel arrays in a
+        shuffled order (element-wise evaluation); plus a few |m| > n channels (value 0)."""
+        from ear.core import hoa
+
+        rng = ctx.rng
+        dirs = [(0.0, 0.0), (np.pi / 2, 0.0), (np.pi, 0.0), (-np.pi / 2, 0.0), (0.3, np.pi / 2), (0.3, -np.pi / 2),
+                (np.pi / 4, np.pi / 4), (-2.0, -1.0)]
+        dirs += [(rng.uniform(-np.pi, np.pi), float(np.arcsin(rng.uniform(-1, 1)))) for _ in range(8 if ctx.quick else 60)]
+        lines, metas = [], []
+        for conv in CONVS:
+            chans = full_set(max_order(conv))
+            if conv != "FuMa":
+                chans = chans + [(1, 2), (0, -1), (2, 3)]
+            chans = list(chans)
+            rng.shuffle(chans)
+            n = np.array([c[0] for c in chans])
+            m = np.array([c[1] for c in chans])
+            az = np.array([d[0] for d in dirs])
+            el = np.array([d[1] for d in dirs])
+            with warnings.catch_warnings(), np.errstate(all="ignore"):
+                warnings.simplefilter("ignore")
+                ok, Y = guarded(ctx, "hoa.sph_harm", {"norm": conv, "channels": chans},
+                                lambda: hoa.sph_harm(n[:, None], m[:, None], az[None], el[None], norm=hoa.norm_functions[conv]))
+            if not ok:
+                continue
+            for i, c in enumerate(chans):
+                for j, d in enumerate(dirs):
+                    lines.append("sph %s %d %d %.17g %.17g" % (conv, c[0], c[1], d[0], d[1]))
+                    metas.append((conv, c, d, float(Y[i, j])))
+        for (conv, c, d, want), o in zip(metas, driver.run(lines)):
+            ctx.case(("sph", conv, c, d), True, sample={"sph_harm": conv, "n,m": list(c), "az,el": list(d), "value": want} if abs(c[1]) == 2 else None)
+            ctx.count("sph:%s" % conv)
+            ctx.count("sph:order:%d%s" % (c[0], " |m|>n" if abs(c[1]) > c[0] else ""))
+            got = None if o == "raise" else bits_to_floats([o])[0]
+            if got is not None and close([got], [want], 1e-12):
+                ctx.validated()
+            else:
+                ctx.disagree("hoa.sph_harm vs Earverif.Hoa.sphHarm", {"norm": conv, "n": c[0], "m": c[1], "az": d[0], "el": d[1]}, got if got is not None else o, want)
 
     def _corr_acn(self, ctx, driver):
         from ear.core import hoa
@@ -554,7 +711,7 @@ class C11(Spec):
         P_all = lc.dd.points.shape[0]
         cases = self._case_stream(ctx, lc, 36 if ctx.quick else 120)
         n_full = 2 if ctx.quick else 4
-        lines, metas = [], []
+        lines, pack_lines, metas = [], [], []
         for idx, (conv, N, kind, lst, opts, gains, og, mute) in enumerate(cases):
             if idx < n_full:
                 subset = None
@@ -618,8 +775,34 @@ class C11(Spec):
                 % (G.shape[0], len(lst), G.shape[1], opts["nmp"], opts["maxRE"], opts["scale"], mute, og,
                    fl(G), fl(Y), fl(nN3D), fl(nrm), fl(gains), " ".join(str(int(x)) for x in n), fl(coef))
             )
+            # the same call with everything between the metadata and the decoder inside the model (norm_*, sph_harm):
+            # only G_virt and the point directions (computed as design/allrad_design compute them) come from the code
+            paz = -np.arctan2(d.points[:, 0], d.points[:, 1])
+            pel = np.arctan2(d.points[:, 2], np.hypot(d.points[:, 0], d.points[:, 1]))
+            pack_lines.append(
+                "designpack %d %d %d %d %d %s %d %.17g %s | %s | %s | %s | %s | %s | %s | %s"
+                % (G.shape[0], len(lst), G.shape[1], opts["nmp"], opts["maxRE"], opts["scale"], mute, og, conv,
+                   fl(G), fl(paz), fl(pel), fl(gains), " ".join(str(int(x)) for x in n), " ".join(str(int(x)) for x in m), fl(coef))
+            )
             metas.append((conv, N, kind, lst, opts, gains, og, mute, subset, D))
         outs = driver.run(lines)
+        pack_outs = driver.run(pack_lines)
+        for (conv, N, kind, lst, opts, gains, og, mute, subset, D), o in zip(metas, pack_outs):
+            inp = self._inp(lc, conv, lst, opts, gains, og, mute)
+            inp["points"] = "all %d" % P_all if subset is None else "subset %s" % subset.tolist()
+            ctx.case(("designpack", lc.name, conv, tuple(lst), opts_key(opts), tuple(gains), og, mute, inp["points"]), len(lst) >= 2 and not mute)
+            ctx.count("designpack:norm:" + conv)
+            ctx.count("designpack:order:%d" % N)
+            tok = o.split()
+            if tok[0] != "ok":
+                ctx.disagree("driver rejected a designpack request", inp, o[:80], "decoder of shape %s" % (np.shape(D),))
+                continue
+            M = bits_to_floats(tok[1:]).reshape(np.shape(D))
+            if close(M, D):
+                ctx.validated()
+            else:
+                ctx.disagree("HOADecoderDesign.design vs Earverif.Hoa.designPack (norm_*, sph_harm inside the model)", inp,
+                             M[0].tolist(), np.asarray(D)[0].tolist() + ["max abs diff %g" % maxdiff(M, D)])
         for (conv, N, kind, lst, opts, gains, og, mute, subset, D), o in zip(metas, outs):
             inp = self._inp(lc, conv, lst, opts, gains, og, mute)
             inp["points"] = "all %d" % P_all if subset is None else "subset %s" % subset.tolist()
@@ -640,7 +823,7 @@ class C11(Spec):
                 err = maxdiff(M, D)
                 ctx.disagree("HOADecoderDesign.design vs Earverif.Hoa.design", inp, M[0].tolist(), np.asarray(D)[0].tolist() + ["max abs diff %g" % err])
         # routing through the real HOARenderer vs the model's `route`
-        rl, rm = [], []
+        rl, rm, fl_lines, fm = [], [], [], []
         for (conv, N, kind, lst, opts, gains, og, mute) in cases[: 4 if ctx.quick else 12]:
             meta = make_meta(lst, conv, gains, og, mute)
             ok, DR = guarded(ctx, "HOADecoderDesign.design / HOARenderer.render", self._inp(lc, conv, lst, DEFAULT_OPTS, gains, og, mute),
@@ -651,6 +834,23 @@ class C11(Spec):
             bits = "".join("1" if b else "0" for b in lc.layout.is_lfe)
             rl.append("route %d %s | %s" % (len(lst), bits, fl(D)))
             rm.append((conv, lst, gains, og, mute, R))
+            # one rendered frame of arbitrary samples through the real HOARenderer vs the model's renderFrame
+            x = [ctx.rng.choice([0.0, 1.0, -1.0, ctx.rng.uniform(-1, 1)]) for _ in lst]
+            ok, out = guarded(ctx, "HOARenderer.render", self._inp(lc, conv, lst, DEFAULT_OPTS, gains, og, mute), lc.render, meta, np.array([x]))
+            if ok:
+                fl_lines.append("frame %d %s | %s | %s" % (len(lst), bits, fl(D), fl(x)))
+                fm.append((conv, lst, gains, og, mute, x, np.asarray(out)[0]))
+        for (conv, lst, gains, og, mute, x, out), o in zip(fm, driver.run(fl_lines)):
+            inp = dict(self._inp(lc, conv, lst, DEFAULT_OPTS, gains, og, mute), frame=x)
+            ctx.case(("frame", lc.name, conv, tuple(lst), tuple(gains), og, mute, tuple(x)), True)
+            ctx.count("frame:layout:" + lc.name)
+            tok = o.split()
+            is_lfe = np.asarray(lc.layout.is_lfe)
+            if tok[0] == "ok" and len(tok) - 1 == len(out) and close(bits_to_floats(tok[1:]), out, 1e-12) \
+                    and all(t == "0" for t, b in zip(tok[1:], is_lfe) if b):
+                ctx.validated()
+            else:
+                ctx.disagree("HOARenderer.render of one frame vs Earverif.Hoa.renderFrame", inp, o[:160], out.tolist())
         for (conv, lst, gains, og, mute, R), o in zip(rm, driver.run(rl)):
             inp = self._inp(lc, conv, lst, DEFAULT_OPTS, gains, og, mute)
             ctx.case(("route", lc.name, conv, tuple(lst), tuple(gains), og, mute), True)
@@ -661,6 +861,128 @@ class C11(Spec):
             else:
                 ctx.disagree("HOARenderer output routing vs Earverif.Hoa.route", inp, o[:120], R[:, 0].tolist())
 
+    def _render_cases(self, ctx):
+        """deterministic per layout: (conv, channel list in pack order, gains, object gain) for the rendered-audio checks -
+        every one of the ten layouts (the two with two LFE channels included) on every run"""
+        from ear.core import bs2051
+
+        out = []
+        for li, name in enumerate(bs2051.layout_names):
+            for k in range(2):
+                conv = CONVS[(li + k + ctx.seed) % 3]
+                N = 1 + (li + 2 * k + ctx.seed) % max_order(conv)
+                kind, chans = channel_sets(ctx.rng, N)[(li + k) % 3]
+                p = self._perms(ctx, chans, 1)[0]
+                lst = [chans[j] for j in p]
+                gains = [1.0] * len(lst) if k == 0 else [ctx.rng.choice([1.0, 0.5, -1.0, ctx.rng.uniform(0.1, 2.0)]) for _ in lst]
+                out.append((name, conv, N, kind, lst, gains, 1.0 if k == 0 else ctx.rng.uniform(0.2, 1.5)))
+        return out
+
+    def _plane_waves(self, ctx, conv, lst, Q):
+        """Q plane waves from random directions encoded in the convention's standard factors: samples x channels"""
+        from ear.core import hoa
+
+        az = np.array([ctx.rng.uniform(-np.pi, np.pi) for _ in range(Q)])
+        el = np.arcsin(np.array([ctx.rng.uniform(-1, 1) for _ in range(Q)]))
+        n = np.array([c[0] for c in lst])
+        m = np.array([c[1] for c in lst])
+        return az, el, hoa.sph_harm(n[:, None], m[:, None], az[None], el[None], norm=std_norm_fn(conv)).T
+
+    def _corr_render_all(self, ctx, driver):
+        """The REAL HOARenderer (set_rendering_items + render, as ear.core.renderer.Renderer drives it) on all ten
+        layouts vs the model: every rendered sample frame = `renderFrame lfe (rows of the designed decoder) x`
+        (`route` + matrix-vector product, theorems no_lfe_feed / render_lfe_zero / renderFrame_eq_route)."""
+        lines, metas = [], []
+        for name, conv, N, kind, lst, gains, og in self._render_cases(ctx):
+            inp = {"layout": name, "normalization": conv, "orders": [c[0] for c in lst], "degrees": [c[1] for c in lst],
+                   "gains": gains, "object_gain": og}
+            ok, lc = guarded(ctx, "HOARenderer(layout)", {"layout": name}, LayoutCtx.get_light, name)
+            if not ok:
+                continue
+            meta = make_meta(lst, conv, gains, og)
+            _, _, X = self._plane_waves(ctx, conv, lst, 4)
+            try:
+                D = real_design(lc.dd, meta)
+                out = np.asarray(lc.render(meta, X))
+            except Exception as e:
+                # the model renders every layout: an exception here is a disagreement, and a failing input for the search
+                ctx.disagree("HOARenderer.render raised; Earverif.Hoa.renderFrame returns a frame", inp, "ok", repr(e))
+                continue
+            bits = "".join("1" if b else "0" for b in lc.layout.is_lfe)
+            for t in range(X.shape[0]):
+                lines.append("frame %d %s | %s | %s" % (len(lst), bits, fl(D), fl(X[t])))
+                metas.append((dict(inp, sample=X[t].tolist()), name, out[t] if out.ndim == 2 and t < out.shape[0] else np.array([]), np.asarray(lc.layout.is_lfe)))
+        for (inp, name, out, is_lfe), o in zip(metas, driver.run(lines)):
+            ctx.case(("render-frame", name, inp["normalization"], tuple(inp["orders"]), tuple(inp["degrees"]), tuple(inp["sample"])), True)
+            ctx.count("render:frames:layout:%s (%d LFE)" % (name, int(np.sum(is_lfe))))
+            tok = o.split()
+            if tok[0] == "ok" and len(tok) - 1 == len(out) and close(bits_to_floats(tok[1:]), out, 1e-12) \
+                    and all((t == "0") == (v == 0.0) for t, v, b in zip(tok[1:], out, is_lfe) if b):
+                ctx.validated()
+            else:
+                ctx.disagree("HOARenderer.render (one frame) vs Earverif.Hoa.renderFrame", inp,
+                             bits_to_floats(tok[1:]).tolist() if tok[0] == "ok" else o[:80], np.asarray(out).tolist())
+
+    def _search_render_all(self, ctx):
+        """Direct predicate on RENDERED AUDIO through the real HOARenderer on all ten layouts: LFE outputs identically
+        zero; non-LFE outputs = designed decoder applied to the input; the same plane waves give the same loudspeaker
+        signals when the pack lists its channels in another order and when it uses another normalisation."""
+        for name, conv, N, kind, lst, gains, og in self._render_cases(ctx):
+            inp = {"layout": name, "normalization": conv, "orders": [c[0] for c in lst], "degrees": [c[1] for c in lst],
+                   "gains": gains, "object_gain": og}
+            ok, lc = guarded(ctx, "HOARenderer(layout)", {"layout": name}, LayoutCtx.get_light, name)
+            if not ok:
+                continue
+            is_lfe = np.asarray(lc.layout.is_lfe)
+            az, el, X = self._plane_waves(ctx, conv, lst, 6)
+            inp["plane_wave_az_el_rad"] = [float(az[0]), float(el[0])]
+            meta = make_meta(lst, conv, gains, og)
+            ctx.case(("search-render", name, conv, tuple(lst), tuple(gains), og), True)
+            ctx.count("search:render:layout:%s (%d LFE)" % (name, int(np.sum(is_lfe))))
+            ok, out = guarded(ctx, "HOARenderer.render", inp, lc.render, meta, X)
+            if not ok:
+                continue
+            out = np.asarray(out)
+            if out.shape != (X.shape[0], len(is_lfe)):
+                ctx.hit("rendered block has the wrong shape", inp, {"shape": list(out.shape), "expected": [X.shape[0], len(is_lfe)]}, ["render", "shape"])
+                continue
+            if not np.all(np.isfinite(out)):
+                ctx.hit("rendered HOA signal is not finite", inp, {"frame0": out[0].tolist()}, ["render", "not-finite"])
+                continue
+            if not np.all(out[:, is_lfe] == 0.0):
+                j = int(np.flatnonzero(is_lfe)[np.argmax(np.max(np.abs(out[:, is_lfe]), axis=0))])
+                ctx.hit("HOARenderer feeds an LFE output (rendered signal not zero on %s)" % lc.layout.channel_names[j], inp,
+                        {"peak on LFE outputs": float(np.max(np.abs(out[:, is_lfe]))), "channel": lc.layout.channel_names[j],
+                         "frame0": out[0].tolist()}, ["render", "lfe"])
+            ok, D = guarded(ctx, "HOADecoderDesign.design", inp, real_design, lc.dd, meta)
+            if ok and not close(out[:, ~is_lfe], np.dot(X, np.asarray(D).T), 1e-12):
+                diff = np.max(np.abs(out[:, ~is_lfe] - np.dot(X, np.asarray(D).T)), axis=0)
+                names = [c for c, b in zip(lc.layout.channel_names, is_lfe) if not b]
+                ctx.hit("rendered loudspeaker signals are not the designed decoder applied to the input", inp,
+                        {"max abs diff": float(np.max(diff)), "worst loudspeaker": names[int(np.argmax(diff))]}, ["render", "routing"])
+            # channel order: another listing of the same pack, input columns moved with it -> same signals
+            p = list(range(len(lst)))
+            ctx.rng.shuffle(p)
+            meta_p = make_meta([lst[i] for i in p], conv, [gains[i] for i in p], og)
+            ok, out_p = guarded(ctx, "HOARenderer.render", dict(inp, permutation=p), lc.render, meta_p, X[:, p])
+            if ok and not close(out_p, out):
+                ctx.hit("rendered signals change when the pack lists its channels in another order", dict(inp, permutation=p),
+                        {"max abs diff": maxdiff(out_p, out)}, ["render", "perm"])
+            # normalisation: the same plane waves in another convention -> same signals
+            for conv2 in CONVS:
+                if conv2 == conv or N > max_order(conv2):
+                    continue
+                n = np.array([c[0] for c in lst])
+                m = np.array([c[1] for c in lst])
+                from ear.core import hoa
+
+                X2 = hoa.sph_harm(n[:, None], m[:, None], az[None], el[None], norm=std_norm_fn(conv2)).T
+                ok, out2 = guarded(ctx, "HOARenderer.render", dict(inp, normalization=conv2), lc.render, make_meta(lst, conv2, gains, og), X2)
+                ctx.count("search:render:signals %s=%s" % (conv, conv2))
+                if ok and not close(out2, out):
+                    ctx.hit("same plane waves in %s and %s give different rendered signals" % (conv, conv2), dict(inp, other=conv2),
+                            {"max abs diff": maxdiff(out2, out)}, ["render", "norm-convention"])
+
     def _inp(self, lc, conv, lst, opts, gains, og, mute):
         return {"layout": lc.name, "normalization": conv, "orders": [c[0] for c in lst], "degrees": [c[1] for c in lst],
                 "options": dict(norm_mean_power=bool(opts["nmp"]), maxRE=bool(opts["maxRE"]), maxRE_scale=opts["scale"]),
@@ -668,7 +990,72 @@ class C11(Spec):
 
     # ---------------------------------------------------------------- direct predicate
 
+    def _probe_degree_gt_order(self, ctx):
+        """Recorded finding (outside every theorem: NonDegenerate fails, see Earverif.Hoa.degree_gt_order_degenerate):
+        an ADM document whose HOA pack has a channel with |degree| > order passes the XML parser, adm.validate() and
+        select_rendering_items (no validator compares degree with order) and the designed decoder is NaN in EVERY entry.
+        Reported as a failing input only when known_findings.json lists the classifier `degree-exceeds-order` (a check
+        must not alarm on the unchanged tree); otherwise recorded in the evidence notes."""
+        import lxml.etree
+        from ear.core.select_items import select_rendering_items
+        from ear.fileio.adm.builder import ADMBuilder
+        from ear.fileio.adm.elements import AudioBlockFormatHoa, FormatDefinition, TypeDefinition
+        from ear.fileio.adm.exceptions import AdmError
+        from ear.fileio.adm.generate_ids import generate_ids
+        from ear.fileio.adm.xml import adm_to_xml, parse_string
+        from .common import load_known
+
+        chans = [(0, 0), (1, 1), (1, 2)]
+        layout = self._layouts(ctx)[0]  # a layout this run initialises anyway
+        inp = {"adm": "one HOA audioPackFormat, SN3D, three audioChannelFormats", "orders": [c[0] for c in chans],
+               "degrees": [c[1] for c in chans], "layout": layout}
+        try:
+            b = ADMBuilder()
+            pack = b.create_pack(audioPackFormatName="p", type=TypeDefinition.HOA)
+            tracks = []
+            for n, m in chans:
+                ch = b.create_channel(audioChannelFormatName="c_%d_%d" % (n, m), type=TypeDefinition.HOA,
+                                      audioBlockFormats=[AudioBlockFormatHoa(order=n, degree=m)])
+                b.create_stream(audioStreamFormatName="s", format=FormatDefinition.PCM, audioChannelFormat=ch)
+                tracks.append(b.create_track(audioTrackFormatName="t", format=FormatDefinition.PCM))
+            for i, t in enumerate(tracks, 1):
+                b.create_track_uid(audioPackFormat=pack, audioTrackFormat=t, trackIndex=i)
+            generate_ids(b.adm)
+            adm = parse_string(lxml.etree.tostring(adm_to_xml(b.adm)))
+            for i, atu in enumerate(adm.audioTrackUIDs):
+                atu.trackIndex = i + 1  # carried by the CHNA chunk in a file
+            adm.validate()
+            [item] = select_rendering_items(adm)
+            meta = item.metadata_source.get_next_block()
+        except (AdmError, ValueError) as e:
+            ctx.count("finding:degree-exceeds-order:rejected by the reader/validators (%s)" % type(e).__name__)
+            return
+        ok, lc = guarded(ctx, "HOARenderer(layout) / init_slow", {"layout": layout}, LayoutCtx.get, layout)
+        if not ok:
+            return
+        try:
+            D = real_design(lc.dd, meta)
+        except Exception as e:
+            ctx.count("finding:degree-exceeds-order:design raises %s" % type(e).__name__)
+            return
+        if np.all(np.isfinite(D)):
+            ctx.count("finding:degree-exceeds-order:decoder finite (not reproduced)")
+            return
+        ctx.count("finding:degree-exceeds-order:reproduced (decoder not finite)")
+        detail = {"decoder row0": np.asarray(D)[0].tolist(), "entries not finite": int(np.sum(~np.isfinite(D))), "entries": int(np.size(D))}
+        listed = any(k.get("property") == "C11" and k.get("status") == "known" and k.get("classifier") == "degree-exceeds-order"
+                     for k in load_known())
+        if listed:
+            ctx.hit("decoder is not finite for a pack with |degree| > order that every validator accepts", inp, detail,
+                    ["not-finite", "degree-exceeds-order"])
+        else:
+            ctx.notes.append("FINDING degree-exceeds-order (not listed in known_findings.json, hence not reported as a hit): "
+                             "ADM with HOA channel order=1 degree=2 is accepted by parse/validate/select_rendering_items; "
+                             "HOADecoderDesign.design returns %d/%d non-finite entries" % (detail["entries not finite"], detail["entries"]))
+
     def search(self, ctx, deep):
+        self._probe_degree_gt_order(ctx)
+        self._search_render_all(ctx)
         if ctx.quick:
             for name in self._layouts(ctx):
                 ok, lc = guarded(ctx, "HOARenderer(layout) / init_slow", {"layout": name}, LayoutCtx.get, name)
@@ -824,19 +1211,37 @@ class C11(Spec):
 SPEC = C11()
 
 REGISTRY = dict(
-    text="FULL: Lean theorems over the reals about a transliteration of hoa.allrad_design / HOADecoderDesign.design / the "
-    "HOARenderer routing with the panner matrix G, the N3D harmonics Y and the per-channel norm factors as arbitrary "
-    "parameters: design_perm (permuting channels permutes decoder columns, incl. per-order maxRE weights), "
-    "design_norm_invariant / design_same_signals (decoder·diag(nrm) is the same for any two non-zero conventions, hence equal "
-    "loudspeaker signals in N3D, SN3D, FuMa), design_linear_in_gains, design_mute_zero, design_unit_mean_power (default "
-    "options, non-zero denominators), no_lfe_feed; norm factors and ACN maps are tied to the code by regenerated tables "
-    "(decide +kernel). The model is tied to the code on every run by running the real design and the Lean model on the "
-    "REAL captured G_virt / Y_virt and by calling hoa.norm_* on every rotation of every channel list. Finiteness is "
-    "searched, not proved.",
-    note="Trusted: Lean kernel, hand transliteration + correspondence harness (1e-9), sph_harm linear in norm (checked "
-    "1e-12), spherical harmonics / panner / t-design / Legendre maxRE table as parameters. Excluded: maxRE_scale='order' "
-    "on an order-0 pack (all-zero decoder, 0/0).",
-    technique="Lean 4 algebraic proofs over ℝ on a scalar-polymorphic model (run on Float) + regenerated tables + "
-    "differential correspondence on captured intermediates + direct-predicate search on the real decoder",
+    text="PARTIAL: full on the abstract model, concrete conventions and sph_harm inside for |degree| <= order, finiteness "
+    "searched. Lean theorems over the reals about a transliteration of hoa.norm_*/sph_harm/allrad_design, "
+    "HOADecoderDesign.design and the HOARenderer routing. Abstract layer (panner matrix G, harmonics Y, norm vectors arbitrary; "
+    "hypothesis NonDegenerate = every denominator non-zero, derived by nonDegenerate_of_indep from independent rows of Y, "
+    "non-zero norm factors and a non-zero entry of G·Yᵀ): design_perm (permuting channels permutes decoder columns, incl. "
+    "per-order maxRE weights), design_norm_invariant / design_same_signals (decoder·diag(nrm) is the same for any two non-zero "
+    "conventions), design_linear_in_gains, design_mute_zero, design_unit_mean_power(_nmp) (mean over the code's P sample "
+    "points = 1). Concrete layer (designPack: norm_N3D/SN3D/FuMa, sph_harm -> Y_virt/K_v, allrad, maxRE, mean power, gains "
+    "all inside; only G_virt, the point directions and the maxRE table are parameters): designPack_perm, "
+    "designPack_same_signals (N3D, SN3D, FuMa give identical loudspeaker signals) for packs with |degree| <= order; "
+    "norms_pos, norms_sq, tables_match_model / tables_normBy_sq (the code's norm values, orders 0..5, FuMa 0..3, squared = "
+    "normBy squared), table_acn_inverse (ACN 0..35); spherical harmonics: alegendre_closed (orders 0..3), sphHarm_pair, "
+    "unsold_sn3d / unsold_n3d (sum over m of Y_nm^2 = 1 resp. 2n+1 at every direction, orders 0..3), sphHarm_first_order "
+    "(direction cosines), sphHarm_rescale, sphHarm_fuma. Renderer: no_lfe_feed (gain matrix) and render_lfe_zero / "
+    "design_render_lfe_zero (every LFE output of the rendered frame is exactly 0 for every decoder and every input, any "
+    "scalar type), renderFrame_eq_route. Tie: real design vs Lean design on captured G_virt/Y_virt and vs Lean designPack on "
+    "G_virt + directions only (1e-9); hoa.norm_* on every rotation of every channel list; hoa.sph_harm per (n,m,direction) "
+    "for orders 0..5 (1e-12); on every run blocks of encoded plane waves are rendered through the real HOARenderer "
+    "(set_rendering_items + render) on ALL ten layouts incl. the two with two LFE channels (3+7+0, 9+10+3): every rendered "
+    "frame vs renderFrame (route + matrix-vector product), and on the rendered audio LFE outputs identically 0, non-LFE "
+    "outputs = designed decoder applied to the input, invariance under channel order and N3D/SN3D/FuMa. Outside: finiteness in binary64 (searched); orders 4, 5 of "
+    "sph_harm and the Unsoeld identity there (correspondence only); the panner G_virt (C05), the t-design as a quadrature of the "
+    "sphere and the maxRE table (parameters). |degree| > order is NOT rejected by any validator (parser, adm.validate, "
+    "select_rendering_items) and reaches the decoder: norm_N3D = norm_SN3D = 0 there (norms_zero_of_gt, corresponded) and the "
+    "decoder is all-NaN (degree_gt_order_degenerate: NonDegenerate fails) - recorded finding `degree-exceeds-order`, "
+    "reproduced on every run (evidence note), reported as KNOWN-FINDING once listed.",
+    note="Trusted: Lean kernel, hand transliteration + correspondence harness (1e-9 design, 1e-12 sph_harm, 1e-14 norms), "
+    "scipy lpmv/factorial modelled in closed form, panner / t-design / Legendre maxRE table as parameters. Excluded: "
+    "maxRE_scale='order' on an order-0 pack (all-zero decoder, 0/0); packs with |degree| > order (recorded finding).",
+    technique="Lean 4 algebraic proofs over ℝ on a scalar-polymorphic model (run on Float) + closed-form spherical harmonics "
+    "+ regenerated tables + differential correspondence on captured intermediates and on the metadata-to-decoder path + "
+    "direct-predicate search on the real decoder",
     design_ref="DESIGN.md section 4, C11",
 )
